@@ -73,7 +73,10 @@ def run_children(jobs, workdir, par=16, timeout=None):
             sdir = os.path.join(workdir, "sched%04d" % idx)
             os.makedirs(sdir, exist_ok=True)
             cmd = [BIN, "--scheduler", j["scheduler"], "--seed", str(j["seed"]), "--iters", str(j["iters"]),
-                   "--threads", str(j["threads"]), "--ops", str(j["ops"]), "--out", out, "--schedule-dir", sdir]
+                   "--threads", str(j["threads"]), "--ops", str(j["ops"]), "--out", out, "--schedule-dir", sdir,
+                   "--stack", str(j.get("stack", 0x40000))]
+            if j.get("preflight"):
+                cmd.append("--preflight")
             p = subprocess.Popen(cmd, stdout=subprocess.PIPE, stderr=subprocess.PIPE, text=True)
             running.append((idx, j, p, out, sdir, time.time()))
         still = []
@@ -259,6 +262,30 @@ def main():
 
     if replay:
         rp = json.load(open(replay))
+        if rp.get("engine") == "lazysim-preflight":
+            build()
+            wd = os.path.join(VERIF, "logs", "lazy-replay")
+            shutil.rmtree(wd, ignore_errors=True)
+            os.makedirs(wd)
+            r = run_children([dict(rp["job"], iters=1, preflight=True)], wd)
+            if r and r[0][3] == 1 and r[0][2] and r[0][2].get("preflight_failed"):
+                print("reproduced: " + (r[0][2].get("failure") or "")[:300])
+                print("VIOLATION property=C09 replay=%s" % replay)
+                sys.exit(1)
+            print("replay of %s: the preflight passes on this tree" % replay)
+            sys.exit(0)
+        if rp.get("engine") == "lazysim-crash":
+            build()
+            wd = os.path.join(VERIF, "logs", "lazy-replay")
+            shutil.rmtree(wd, ignore_errors=True)
+            os.makedirs(wd)
+            r = run_children([rp["job"]], wd)
+            if r and isinstance(r[0][3], int) and r[0][3] < 0:
+                print("reproduced: " + rp["invariant"])
+                print("VIOLATION property=C09 replay=%s" % replay)
+                sys.exit(1)
+            print("replay of %s: the child completes on this tree" % replay)
+            sys.exit(0)
         if rp.get("engine") == "lazysim-miri":
             rs = run_miri([rp["miri_seed"]], rp["threads"], rp["ops"], 1, target=None if rp.get("target", "host") == "host" else rp["target"])
             if rs and rs[0]["rc"] != 0 and miri_failure_class(rs[0]) == rp["invariant"]:
@@ -295,7 +322,11 @@ def main():
         s, v = splitmix(s)
         jobs.append(dict(scheduler="random" if k % 2 == 0 else "pct", seed=v & 0x7FFFFFFFFFFFFFFF, iters=iters,
                          threads=([2, 3, 4] if tier == "quick" else [2, 3, 4, 5, 6])[k % (3 if tier == "quick" else 5)],
-                         ops=[1, 2, 3, 4][(k // 3) % 4]))
+                         ops=[1, 2, 3, 4][(k // 3) % 4],
+                         # a quarter of the children run their caller threads on small stacks (first use from a
+                         # thread with little stack must work: the tables live on the heap)
+                         stack=0x10000 if k % 4 == 3 else 0x40000,
+                         preflight=(k == 0)))
     par = os.cpu_count() or 4
     # a healthy child completes 25 executions (one heartbeat) in about 0.15 s, far less even on a heavily loaded
     # machine; one that shows no heartbeat for two minutes is not making progress
@@ -328,7 +359,25 @@ def main():
     digests = set()
     cover = set()
     failure = None
+    crash_violation = False
     for (idx, j, res, rc, sdir, se) in results:
+        if isinstance(rc, int) and rc < 0 and crash_violation:
+            continue
+        if isinstance(rc, int) and rc < 0 and failure is None:
+            # killed by a signal (stack overflow / abort inside the library): re-run once to make sure it is deterministic
+            again = run_children([j], os.path.join(workdir, "crash-again"))
+            if again and isinstance(again[0][3], int) and again[0][3] < 0:
+                inv = "crash_signal_%d" % (-rc)
+                name = "C09-%d-%s" % (seed, inv)
+                replay_path = os.path.join(VERIF, "replays", name + ".json")
+                json.dump(dict(engine="lazysim-crash", property="C09", invariant=inv, seed=seed, job=j,
+                               detail="the child process running these executions was killed by signal %d (e.g. stack overflow in a caller thread with a %d-byte stack); stderr: %s" % (-rc, j.get("stack", 0), se[-600:])),
+                          open(replay_path, "w"), indent=1)
+                print("violation found: %s :: a caller thread crashed the process (stack %d bytes): %s" % (inv, j.get("stack", 0), se.strip().splitlines()[-1][:200] if se.strip() else ""))
+                print("VIOLATION property=C09 replay=%s" % replay_path)
+                crash_violation = True
+                continue
+            harness_error("lazysim child %d crashed once with signal %d but not on re-run" % (idx, -rc))
         if res is None or rc not in (0, 1):
             harness_error("lazysim child %d crashed (rc=%s): %s" % (idx, rc, se))
         executions += res["executions"]; steps += res["steps"]; ops += res["ops"]
@@ -337,13 +386,21 @@ def main():
         cover.update(res["digit_cover"])
         if rc == 1 and failure is None:
             failure = (j, res, sdir)
-    violations = 0
-    exit_code = 0
+    violations = 1 if crash_violation else 0
+    exit_code = 1 if crash_violation else 0
     replay_path = None
     if failure:
         j, res, sdir = failure
         inv = invariant_of(res["failure"])
         print("violation found: %s :: %s" % (inv, (res["failure"] or "").splitlines()[0][:300]))
+        if res.get("preflight_failed"):
+            # pure clause sampled before any schedule: the replay is the preflight itself
+            name = "C09-%d-%s" % (seed, inv)
+            replay_path = os.path.join(VERIF, "replays", name + ".json")
+            json.dump(dict(engine="lazysim-preflight", property="C09", invariant=inv, detail=res["failure"], seed=seed, job=j),
+                      open(replay_path, "w"), indent=1)
+            print("VIOLATION property=C09 replay=%s" % replay_path)
+            sys.exit(1)
         sched = schedule_file(sdir)
         best = minimise(j, inv, workdir)
         if best:
@@ -373,6 +430,8 @@ def main():
             # one more configuration: a target whose usize is 32 bits wide (table construction and indexing
             # arithmetic must not depend on the width of usize); interpreted, so no cross toolchain is needed
             miri_runs += run_miri([1001, 1002], 2, 1, par, target="i686-unknown-linux-gnu")
+            # and a big-endian target (byte-order assumptions in limb <-> byte conversions)
+            miri_runs += run_miri([2001], 2, 1, par, target="s390x-unknown-linux-gnu")
         for r in miri_runs:
             if r["rc"] != 0:
                 cls = miri_failure_class(r)
